@@ -4,6 +4,7 @@ import (
 	"errors"
 	"fmt"
 	"io"
+	mrand "math/rand"
 
 	"filippo.io/age/zverif/ax"
 	"filippo.io/age/zverif/keys"
@@ -86,5 +87,60 @@ func rngFaultPhase(r *mon.Run, realRand io.Reader) {
 			}
 			_ = refage.Intro
 		}
+	}
+}
+
+// shortReadPhase: the process-wide generator may be a healthy reader that
+// returns fewer bytes than asked for, with a nil error (a buffered or
+// hardware-backed generator; io.Reader allows it). A caller that ignores the
+// count keeps zeros in the tail of its secret. Every secret of every file
+// written under such a generator must still be made of tape bytes only.
+func shortReadPhase(r *mon.Run, realRand io.Reader) {
+	lists := [][]string{{"X1"}, {"S1"}, {"E1"}, {"R1"}, {"R4"}, {"X1", "E1", "R1"}, {"E1", "E2", "X2"}, {"X2", "X2"}}
+	patterns := []struct {
+		name string
+		f    func(rng *mrand.Rand) func(int) int
+	}{
+		{"one-byte", func(*mrand.Rand) func(int) int { return func(int) int { return 1 } }},
+		{"all-but-one", func(*mrand.Rand) func(int) int { return func(w int) int { return w - 1 } }},
+		{"half", func(*mrand.Rand) func(int) int { return func(w int) int { return (w + 1) / 2 } }},
+		{"random", func(rng *mrand.Rand) func(int) int {
+			return func(w int) int { return 1 + rng.Intn(w) }
+		}},
+	}
+	for li, l := range lists {
+		for pi, pat := range patterns {
+			for rep := 0; rep < r.Pick(3, 20); rep++ {
+				parties := keys.Ps(l...)
+				rng := mon.NewRNG(r.Seed, fmt.Sprintf("c06-short-%d-%d-%d", li, pi, rep))
+				t := mon.InstallTap(realRand)
+				t.Short = pat.f(rng)
+				pt := mon.DetBytes(fmt.Sprintf("c06-short-%d-%d-%d", li, pi, rep), 70000*(rep%2)+100)
+				file, err := ax.Encrypt(pt, false, keys.Recipients(parties)...)
+				draws := t.Since(0)
+				t.Uninstall()
+				name := fmt.Sprintf("short-reading-generator list=%v pattern=%s rep=%d", l, pat.name, rep)
+				r.Eval(1)
+				r.Distinct(name)
+				r.Tab("short_reading_generator", pat.name)
+				if err != nil {
+					// refusing to work with such a generator is not a leak
+					r.Count("short_read_generator_refused", 1)
+					continue
+				}
+				if _, xerr := tape.Explain(file, parties, pt, draws, keys.ScryptLogN); xerr != nil {
+					cls := "unexplained"
+					if pe, ok := xerr.(*tape.ErrProvenance); ok {
+						cls = roleClass(pe.Role)
+					}
+					r.Violate("short-read-ignored:"+cls, fmt.Sprintf("%s: %v", name, xerr), map[string]any{"list": l, "pattern": pat.name})
+					continue
+				}
+				r.Count("short_read_files_with_fresh_secrets", 1)
+			}
+		}
+	}
+	if r.Counter("short_read_files_with_fresh_secrets") == 0 && r.Counter("short_read_generator_refused") == 0 {
+		r.Inconclusive("the short-reading generator phase explained no file")
 	}
 }
